@@ -306,3 +306,9 @@ package memfs
 //@   ranges
 //@   requires parent != nil
 //@   loop 0 step[C05,C01] called(child.delete)
+
+// isNotExist is called by contract (one path per call instead of two: Rename alone went from
+// about 2000 paths to a few hundred).
+//@ func (*MemFS).isNotExist
+//@   ensures[C01] r0 == (err == vfs.err.NoSuchDir || err == vfs.err.NoSuchFile)
+//@   modifies nothing
